@@ -180,10 +180,18 @@ class Result:
         self.harness_errors.append(msg)
 
 
+_WRITTEN = set()
+
+
 def write_replay(prop, name, payload):
+    """First write wins within one run: the replay file of a (property, name)
+    describes the first violation reported under that name."""
     d = os.environ.get("VERIF_REPLAY_DIR") or os.path.join(VERIF_DIR, "replays")
     os.makedirs(d, exist_ok=True)
     p = os.path.join(d, f"{prop}_{name}.json")
+    if p in _WRITTEN:
+        return p
+    _WRITTEN.add(p)
     with open(p, "w") as f:
         json.dump(payload, f, indent=1, default=repr)
     return p
